@@ -74,14 +74,28 @@ def builder_chain(F, B, bb):
     cur = t['args'][0]
     chain = []
     root = None
+    use_bb = bb
     for _ in range(40):
         l = op_local(cur)
         if l is None:
             break
         ds = B.whole_defs(l)
+        if len(ds) > 1:
+            # a `mut` variable re-assigned in straight-line code: take the closest definition dominating the use
+            dom_defs = [d for d in ds if B.dominates(d[1], use_bb) and not (d[0] == 'call' and d[1] == use_bb)]
+            if not dom_defs:
+                break
+            best = max(dom_defs, key=lambda d: (len(B.dom[d[1]]), d[2] if d[0] == 'assign' else 10 ** 6))
+            # no other definition may lie between the chosen one and the use
+            from panics import _can_reach
+            between = B.reachable_from(best[1]) & _can_reach(B, use_bb)
+            if any(d is not best and d[1] in between and d[1] != use_bb and d[1] != best[1] for d in ds):
+                break
+            ds = [best]
         if len(ds) != 1:
             break
         d = ds[0]
+        use_bb = d[1]
         if d[0] == 'call':
             ct = d[3]
             c = callee_of(ct) or ''
